@@ -136,6 +136,9 @@ def check_a(prefix, tok, rest, tails, cls):
     elif cls != "junk" and ep[2] != len(tok):
         out.append(("A|%s|error_pos-length" % cls, base))
     for tail in tails:
+        if tok.startswith(b'"') and b'"' in tail:
+            # the tail would close the unterminated string: a different token, not a different tail
+            continue
         t2 = prefix + tok + tail
         o2 = impl.parse_outcome(t2)
         if o2.exc is not None or o2.verdict is not False:
